@@ -195,3 +195,7 @@ from props import workbench as WB   # noqa: E402
 CLAUSES.append(Clause("object_history", lambda tier: WB.fa_programs(tier, "iso"), WB.run_fa, quick=500, thorough=5000,
                       rule="(both isomorphism tests on pairs of DFA objects with a history: compared, modified in place, compared again) " + WB.FA_RULE))
 KNOWN_PREDICATES = {}
+
+# coverage-guided second driver (atheris / libFuzzer through Hypothesis' fuzz_one_input) for the core clauses: (clause, quick runs, thorough runs)
+from harness.covfuzz import cov_clauses  # noqa: E402
+CLAUSES += cov_clauses('C20', CLAUSES, [('isomorphic', 2000, 40000), ('isomorphic1', 2000, 40000)])
